@@ -600,13 +600,17 @@ fn run_p(rest: &str) -> String {
                     let (r2, d2) = run_once_test(&c2, &ops);
                     format!("{} || {} | file={}", first, r2.join(" ; "), hex(&d2))
                 }
-                "filter" => {
-                    // the same history with the rejected frame-writing calls removed
+                "filter" | "filter1" => {
+                    // the same history with the rejected frame-writing calls removed (`filter1`: only the first of
+                    // them, so that a refusal which makes a LATER call be refused too is not filtered away with it)
                     let mut ops2: Vec<&str> = Vec::new();
+                    let mut removed = 0usize;
                     for (i, op) in ops.iter().enumerate() {
                         let rejected = replies.get(i).map(|r| r.starts_with("err:")).unwrap_or(false);
                         let is_write = ["wv ", "wvd ", "wa ", "ev ", "ea "].iter().any(|p| op.starts_with(p));
-                        if !(rejected && is_write) {
+                        if rejected && is_write && (cfg.twin == "filter" || removed == 0) {
+                            removed += 1;
+                        } else {
                             ops2.push(op);
                         }
                     }
